@@ -63,6 +63,11 @@ func (dec *Decoder) decodeComplex64(t reflect.Type, tag byte, p *complex64) {
 		} else {
 			*p = dec.stringToComplex64(dec.ReadString())
 		}
+	case TagList:
+		// the encoder writes a complex number with a non-zero imaginary part as [real, imag]
+		var pair [2]float32
+		dec.Decode(&pair, tag)
+		*p = complex(pair[0], pair[1])
 	default:
 		dec.defaultDecode(t, p, tag)
 	}
@@ -104,6 +109,11 @@ func (dec *Decoder) decodeComplex128(t reflect.Type, tag byte, p *complex128) {
 		} else {
 			*p = dec.stringToComplex128(dec.ReadString())
 		}
+	case TagList:
+		// the encoder writes a complex number with a non-zero imaginary part as [real, imag]
+		var pair [2]float64
+		dec.Decode(&pair, tag)
+		*p = complex(pair[0], pair[1])
 	default:
 		dec.defaultDecode(t, p, tag)
 	}
